@@ -8,4 +8,4 @@ ASSUMPTIONS = []
 
 
 def register(reg):
-    lalrmodel.register_lalr(reg, serves=['C02', 'C08', 'C13'])
+    lalrmodel.register_lalr(reg, serves=['C02', 'C08', 'C13', 'C10'])
